@@ -136,6 +136,44 @@ Fixpoint same_mod_vi (a b : list tparam) : bool :=
   | _, _ => false
   end.
 
+(** * From the spec's list to the list on the wire (u_connection.go newUClientConnection on the
+      connection's own copy of the extension: SuppressQUICTransportParams, the optional
+      per-dial shuffle, wire.PopulateFromUQUIC filling in an empty initial_source_connection_id) *)
+
+Definition qtpGrease : Z := 27.
+Definition is_grease_id (id : Z) : bool := (qtpGrease <=? id) && ((id - qtpGrease) mod 31 =? 0).
+
+Definition suppressed (sup : list Z) (id : Z) : bool :=
+  existsb (fun s => if s =? qtpGrease then is_grease_id id else s =? id) sup.
+
+Definition suppress_list (sup : list Z) (ps : list tparam) : list tparam :=
+  filter (fun p => negb (suppressed sup (fst p))) ps.
+
+Definition fill_iscid (scid : list Z) (ps : list tparam) : list tparam :=
+  map (fun p => if (fst p =? tpInitialSourceConnectionID) && (match snd p with [] => true | _ => false end)
+                then (fst p, scid) else p) ps.
+
+Definition dial_list (sup : list Z) (scid : list Z) (ps : list tparam) : list tparam :=
+  fill_iscid scid (suppress_list sup ps).
+
+(* equality of two entries, the version_information value being an oracle *)
+Definition same_entry (p q : tparam) : bool :=
+  (fst p =? fst q) && (if is_vi (fst p) then (length (snd p) =? length (snd q))%nat else eq_bytes (snd p) (snd q)).
+
+Fixpoint remove_entry (p : tparam) (l : list tparam) : option (list tparam) :=
+  match l with
+  | [] => None
+  | q :: t => if same_entry p q then Some t
+              else match remove_entry p t with Some t' => Some (q :: t') | None => None end
+  end.
+
+(* [a] is a permutation of [b] (entries compared with [same_entry]) *)
+Fixpoint perm_mod_vi (a b : list tparam) : bool :=
+  match a with
+  | [] => match b with [] => true | _ => false end
+  | p :: t => match remove_entry p b with Some b' => perm_mod_vi t b' | None => false end
+  end.
+
 (** * Config (config.go) *)
 
 Record config := mkC {
